@@ -328,11 +328,13 @@ class Ctx:
             cov.pop("states", None)
             cov.pop("transitions", None)
         if self.replay is None:
-            os.makedirs(os.path.join(VERIF, "evidence"), exist_ok=True)
-            tmp = os.path.join(VERIF, "evidence", ".%s.json.tmp" % self.pid)
+            # VERIF_EVIDENCE_DIR: development aid (side runs with other seeds must not overwrite the evidence of record)
+            evdir = os.environ.get("VERIF_EVIDENCE_DIR") or os.path.join(VERIF, "evidence")
+            os.makedirs(evdir, exist_ok=True)
+            tmp = os.path.join(evdir, ".%s.json.tmp" % self.pid)
             with open(tmp, "w") as f:
                 json.dump(ev, f, indent=1, default=str)
-            os.replace(tmp, os.path.join(VERIF, "evidence", "%s.json" % self.pid))
+            os.replace(tmp, os.path.join(evdir, "%s.json" % self.pid))
         for k in self.known_hits:
             print("KNOWN-FINDING: property=%s %s [%s]" % (self.pid, k["what"], k["key"]))
         for v in self.violations:
